@@ -96,6 +96,10 @@ func c09(c *core.Ctx, r *core.Report) {
 		// other evaluations of trigger-level rate functions on the run path (excluding wrappers that take a RateFunction
 		// and return one, the chart dry-run, and the file dry-run)
 		n := 0
+		rateValues := map[*ssa.Function]bool{}
+		for _, f := range an.FuncsOfType(c, apiPkg, "RateFunction") {
+			rateValues[f] = true
+		}
 		for _, fn := range c.AllFuncs {
 			rel := core.RelPkg(fn)
 			if fn == tick || !strings.HasPrefix(rel, "internal/") {
@@ -113,7 +117,7 @@ func c09(c *core.Ctx, r *core.Report) {
 						wrapper = true
 					}
 				}
-				wrapper = wrapper || strings.Contains(types_String(outer), "RateFunction")
+				wrapper = wrapper || strings.Contains(types_String(outer), "RateFunction") || rateValues[fn]
 				dry := rel == "internal/chart" || strings.Contains(strings.ToLower(outer.Name()), "dryrun")
 				if wrapper || dry {
 					r.Exists(core.FuncName(fn)+"#rate-call", an.Pos(c, call), "evaluation inside a rate wrapper / dry-run (not the trigger loop)")
